@@ -138,6 +138,8 @@ def analyses():
     reg("optimize", lambda m, rng, x: (lambda s: [s.status, _r(s.objective_value) if s.status == "optimal" else None])(m.optimize()))
     reg("optimize(minimize)", lambda m, rng, x: (lambda s: [s.status, _r(s.objective_value) if s.status == "optimal" else None])(m.optimize("minimize")))
     reg("optimize(raise_error)", lambda m, rng, x: _r(m.optimize(raise_error=True).objective_value))
+    reg("optimize(minimize,raise_error)", lambda m, rng, x: _r(m.optimize("minimize", raise_error=True).objective_value))
+    reg("optimize(maximize,raise_error)", lambda m, rng, x: _r(m.optimize("maximize", raise_error=True).objective_value))
     reg("slim_optimize", lambda m, rng, x: _r(m.slim_optimize()))
     reg("slim_optimize(None)", lambda m, rng, x: _r(m.slim_optimize(error_value=None)))
     reg("fva", lambda m, rng, x: _frame(fa.flux_variability_analysis(m, processes=x["p"]), ["minimum", "maximum"]), True)
